@@ -9,6 +9,7 @@ import (
 	"strings"
 
 	"go.lstv.dev/util/size"
+	"verif/firstuse"
 	"verif/libdefaults"
 	"verif/mc"
 	"verif/oracle"
@@ -542,6 +543,7 @@ func scalarDocs() []string {
 func main() {
 	mc.Main("C12", "JSON documents generated from an AST: every member sequence up to the stated length over a 47-member alphabet (all permutations, duplicates, type confusions, nestings, counts around the limit), whitespace variants, every proper prefix and 14 suffixes of a document subset; x all 16 rule subsets x MaxObjectKeys in {0,1,2,3,16} x 3 entry points; "+
 		"non-trivial = object document with both a value and a unit member", func(r *mc.Run) {
+		firstuse.Phase(r, map[string][]string{"size": {"json", "parse"}})
 		r.Reset = reset
 		reset()
 		p := mc.NewProbe(r, "document", setup, probe)
